@@ -72,6 +72,8 @@ static void XdlParser_step(XdlParser* self, char c) @@step@@
    && ((self)->_state == INT ==> (g_buflen >= 1 && (g_buf[0] == '-' ==> g_buflen >= 2))) \
    && ((self)->_inComment == IS_CMT(g_c0)) && VALID_STATE((self)->_state) && VALID_STATE((self)->_prevState) \
    && (self)->_unicodeCount >= 0 && (self)->_unicodeCount < 8 && g_buflen >= 0 \
+   && ((self)->_unicodeCount >= 4 ==> ((self)->_wchar >= 0xd800 && (self)->_wchar < 0xdc00)) \
+   && (((self)->_state != UNICODECHAR && (self)->_state != ERR) ==> ((self)->_unicodeCount == 0 || (self)->_unicodeCount == 4)) \
    && (g_buflen < VF_BUFCAP ==> g_buf[g_buflen] == 0) )      /* _buffer is a String: its NUL sits at its length (begin_object / new_string read it as a C string) */
 '''
 
@@ -237,6 +239,30 @@ void vf_harness(void) { XdlParser_put(); VF_CANARY(); }
     planted=[('put', r'(KEY_SET\(PROPS_TOP\(\)\);)\s*(PROPS_POP\(\);)', r'const String* vf_n = PROPS_TOP(); \2 KEY_SET(vf_n);')],
 )
 UNITS += [put_unit]
+
+# ---- XdlParser::decode(text) = parse(text); parse(" "); value(): the flush with a blank is unconditional - a document that ends inside a token
+# (a number, or a bare true / false / null) is only completed by it
+decode_unit = Unit(
+    'XdlParser_decode', 'C06',
+    cuts=parser_cuts() + [Cut('dec', X, r'^Var XdlParser::decode\(const char\* s\)\s*$', members=MEMBERS,
+                              rules=[(r'(?<![\w.>])parse\(s\);', 'PARSE_TEXT();', 1), (r'(?<![\w.>])parse\(" "\);', 'PARSE_BLANK();', None), (r'return value\(\);', '{ g_valued = 1; return; }', 1)])],
+    text=PARSER_C + r'''
+int g_text_parsed, g_blank_parsed, g_valued;
+static void PARSE_TEXT(void) { __CPROVER_assert(g_blank_parsed == 0, "the text is parsed before the flush"); g_text_parsed++; }
+static void PARSE_BLANK(void) { __CPROVER_assert(g_text_parsed == 1, "the flush follows the text"); g_blank_parsed++; }
+void XdlParser_decode(XdlParser* self)
+__CPROVER_requires(__CPROVER_is_fresh(self, sizeof(XdlParser)) && g_text_parsed == 0 && g_blank_parsed == 0 && g_valued == 0)
+/* whatever state the text leaves the parser in (inside a number, inside an identifier such as true / null, between values), one blank is fed before value() is asked */
+__CPROVER_ensures(g_text_parsed == 1 && g_blank_parsed == 1 && g_valued == 1)
+__CPROVER_assigns(g_text_parsed, g_blank_parsed, g_valued)
+@@dec@@
+void vf_harness(void) { XdlParser* p; XdlParser_decode(p); VF_CANARY(); }
+''',
+    entry='XdlParser_decode', unwind=10,
+    desc='XdlParser::decode: parse(text), then ALWAYS one blank (which completes a trailing number or a bare true/false/null), then value()',
+    functions=['XdlParser::decode'], trusted=['parse() by its step contract'],
+)
+UNITS += [decode_unit]
 
 for _u in UNITS:
     if not _u.replay:
